@@ -5,6 +5,8 @@ import (
 	"go/ast"
 	"go/token"
 	"net"
+	"os"
+	"path/filepath"
 	"sort"
 	"strings"
 )
@@ -290,7 +292,97 @@ func genRealIP(c *ctx) *leanFile {
 	// allowStatsAccess: address from getRealUserIP / GetRealUserIP, parsed, then X.Allowed(ip)
 	l.boolean("gateUsesRealIPMain", allowStatsShape(bs, "BackendServer"), bs != nil, "backend_server.go not readable")
 	l.boolean("gateUsesRealIPProxy", allowStatsShape(ps, "ProxyServer"), ps != nil, "proxy/proxy_server.go not readable")
+	// ---------------------------------------------------------------- sole source of client addresses
+	// Every non-test file of the three packages: the field `RemoteAddr` of a request is read in
+	// GetRealUserIP only, forwarding headers are mentioned there only, and these are the callers.
+	var remoteAddrSites, headerSites, callers []string
+	okScan := true
+	for _, dir := range []string{"", "proxy", "server", "client"} {
+		names, err := goFiles(c.repo, dir)
+		if err != nil {
+			if dir == "" || dir == "proxy" {
+				okScan = false
+			}
+			continue
+		}
+		for _, rel := range names {
+			f := c.file(rel)
+			if f == nil {
+				okScan = false
+				continue
+			}
+			for _, d := range f.Decls {
+				fd, ok := d.(*ast.FuncDecl)
+				if !ok || fd.Body == nil {
+					continue
+				}
+				where := rel + ":" + fd.Name.Name
+				ast.Inspect(fd.Body, func(nd ast.Node) bool {
+					switch x := nd.(type) {
+					case *ast.CallExpr:
+						if sel, ok := x.Fun.(*ast.SelectorExpr); ok {
+							if sel.Sel.Name == "RemoteAddr" && len(x.Args) == 0 {
+								// method call such as client.RemoteAddr(): not the socket field of a request
+								return false
+							}
+							if sel.Sel.Name == "getRealUserIP" || sel.Sel.Name == "GetRealUserIP" {
+								callers = append(callers, where)
+							}
+						} else if id, ok := x.Fun.(*ast.Ident); ok && id.Name == "GetRealUserIP" {
+							callers = append(callers, where)
+						}
+					case *ast.SelectorExpr:
+						if x.Sel.Name == "RemoteAddr" {
+							remoteAddrSites = append(remoteAddrSites, where)
+						}
+					case *ast.BasicLit:
+						if x.Kind == token.STRING {
+							low := strings.ToLower(x.Value)
+							if strings.Contains(low, "x-forwarded") || strings.Contains(low, "x-real") || strings.Contains(low, "\"forwarded\"") ||
+								strings.Contains(low, "client-ip") {
+								headerSites = append(headerSites, where)
+							}
+						}
+					}
+					return true
+				})
+			}
+		}
+	}
+	sort.Strings(callers)
+	onlyIn := func(sites []string, want string) bool {
+		if len(sites) == 0 {
+			return false
+		}
+		for _, s := range sites {
+			if s != want {
+				return false
+			}
+		}
+		return true
+	}
+	l.boolean("soleAddressSource", onlyIn(remoteAddrSites, "hub.go:GetRealUserIP") && onlyIn(headerSites, "hub.go:GetRealUserIP"), okScan,
+		"could not read the sources of the packages")
+	l.strList("realIPCallers", callers, okScan && len(callers) > 0, "no caller of GetRealUserIP / getRealUserIP found")
 	return l
+}
+
+// goFiles lists the non-test .go files of one directory of the repository (relative paths).
+func goFiles(repo, dir string) ([]string, error) {
+	ents, err := os.ReadDir(filepath.Join(repo, dir))
+	if err != nil {
+		return nil, err
+	}
+	var out []string
+	for _, e := range ents {
+		n := e.Name()
+		if e.IsDir() || !strings.HasSuffix(n, ".go") || strings.HasSuffix(n, "_test.go") {
+			continue
+		}
+		out = append(out, filepath.Join(dir, n))
+	}
+	sort.Strings(out)
+	return out, nil
 }
 
 func fdFound(f *ast.File, recv, name string) bool { return findFunc(f, recv, name) != nil }
